@@ -56,10 +56,23 @@ IntTexts == {"12", "-3", " 7 ", "007", "+5", "", " ", "a", "1.5", "1 2", "--1", 
              "1_0", "123456789"}
 DecTexts == {"1.5", "-0.25", ".5", "1.", " 2.50 ", "+3", ".", "", "1.2.3", "a", "1 2", "-", "B:", "12", "0.00",
              "1e3", "NaN", "Infinity", "-Infinity", "1_0"}
+SpellDates == CenturyEdges \cup {Ord(2022, 4, 5), Ord(1999, 1, 31), Ord(2023, 10, 9), Ord(2021, 1, 3), Ord(2024, 12, 30),
+                                Ord(2020, 11, 7), Ord(999, 1, 1), Ord(9999, 12, 31)}
 DateTexts == {DateStr(o) : o \in {Ord(1900, 1, 1), Ord(2000, 2, 29), Ord(2020, 12, 31), Ord(2100, 12, 31), Ord(999, 1, 1)}}
              \cup {"2021-02-29", "2020-13-01", "2020-00-10", "2020-01-00", "2020-01-32", "1900-02-29", "2000-02-30",
                    "2020-04-31", "0000-01-01", "", "abcd", "2020-01-01x", "x020-01-01", "2020/01/01", "20200101",
                    "2020-1-5", "2020-01-1", " 2020-01-01", "2020:01:01", "TRUE"}
+             \* every spelling of the cast format (month / day zero padded or not) and the other ISO 8601 spellings of
+             \* boundary dates; near misses of the format
+             \cup UNION {Spellings(o) \cup OtherSpellings(o) : o \in SpellDates}
+             \cup {"2023-2-29", "2024-2-29", "2022-4-31", "2022-13-1", "2022-0-5", "2022-4-0", "2022-4-32", "2022-12-1",
+                   "999-1-1", "02022-4-5", "22-4-5", "2022-004-5", "2022-4-005", "2022-4-5-", "-2022-4-5", "2022--4-5",
+                   "2022-4", "2022-4-5 ", "+2022-4-5", "2022-4-5T00:00:00", "2022-04-05T00:00", "2022/4/5", "5-4-2022"}
+\* the same texts written as literals in the statement (a sample: one statement each)
+DateLiterals == {"2022-04-05", "2022-4-5", "2022-04-5", "2022-4-05", "1999-1-31", "2023-2-29", "2024-2-29", "20220405",
+                 "2022-W14-2", "2022W142", "2022-W14", "2022-095", "2022-13-1", "2022-4-31", "", "foo", "2022-04",
+                 "2022-004-05", "22-04-05"}
+                \cup UNION {{Spell(o, FALSE, FALSE), SpellCompact(o)} : o \in {Ord(1900, 1, 1), Ord(2100, 12, 31), Ord(2021, 10, 9)}}
 Objs == {<<"i", 0>>, <<"i", -7>>, <<"i", 42>>, <<"b", 0>>, <<"b", 1>>, <<"q", 0, 1>>, <<"q", -11, 4>>, <<"q", 5, 2>>,
          <<"q", 7, 1>>, <<"s", "">>, <<"s", "12">>, <<"s", "1.5">>, <<"s", "abc:">>, <<"s", "2020-02-29">>,
          <<"s", "2021-02-29">>, <<"d", 737425>>, <<"d", 693596>>}
@@ -104,8 +117,11 @@ CalendarJobs ==
   \o <<J("date_ymd", <<>>, {<<y, m, dd>> : y \in {1900, 2000, 2023, 2024, 2100, 0, 10000}, m \in 0..13,
                                           dd \in {0, 1, 28, 29, 30, 31, 32}}),
        J("cast", <<"date", "str">>, D1(DateTexts)), J("cast", <<"date", "date">>, D1(CenturyEdges)),
+       J("cast", <<"date", "obj">>, D1({<<"s", t>> : t \in DateTexts})),
        J("cast", <<"str", "date">>, D1(CenturyEdges \cup {Ord(2020, 2, 29), Ord(2021, 10, 9)})),
        J("cast", <<"bool", "date">>, D1(CenturyEdges))>>
+  \o [i \in 1..Cardinality(DateLiterals) |->
+        J("cast_k", <<"date", CHOOSE t \in DateLiterals : Cardinality({u \in DateLiterals : StrLess(u, t)}) = i - 1>>, D1({0}))]
 
 AcctsX == Accts \cup {""}
 AccountJobs ==
